@@ -343,6 +343,104 @@ class Gen:
         return Notn(label, arity, body, chunks)
 
 
+def ignored_positions(nt, drop=True):
+    """argument positions the (expanded) definition of nt never mentions"""
+    mvs = ref_metavars(ref_expand(nt.definition, drop))
+    return [i for i in range(nt.arity) if i not in mvs]
+
+
+def related_pair(rng, gen, drop=True):
+    """two patterns built from ONE notation definition whose relation (equal / different expansions) is not visible
+    from the instantiation dicts alone; returns (a, b, kind):
+      ignored-arg   same notation, the applications differ only in an argument the definition ignores  (equal)
+      partial-full  a partial application (a metavariable of the definition left open) vs a fuller one  (mostly different)
+      extra-key     an application with an additional, unused key in its dict                           (equal)
+      reordered     the same application with the dict in another insertion order                       (equal)
+      one-arg       same notation, one used argument changed                                            (different)"""
+    nts = [n for n in gen.notations if n.arity >= 1]
+    kind = rng.choice(['ignored-arg', 'ignored-arg', 'partial-full', 'partial-full', 'extra-key', 'reordered', 'one-arg'])
+    if kind == 'ignored-arg':
+        cand = [n for n in nts if ignored_positions(n, drop)]
+        if not cand:
+            kind = 'one-arg'
+        else:
+            nt = rng.choice(cand)
+            args = [gen.term(rng.choice([0, 1])) for _ in range(nt.arity)]
+            args2 = list(args)
+            i = rng.choice(ignored_positions(nt, drop))
+            args2[i] = gen.mutate(args[i])
+            return nt(*args), nt(*args2), kind
+    nt = rng.choice(nts)
+    args = [gen.term(rng.choice([0, 1])) for _ in range(nt.arity)]
+    full = nt(*args)
+    items = list(enumerate(args))
+    if kind == 'partial-full':
+        keep = [kv for kv in items if rng.random() < 0.6]
+        part = ('I', nt.definition, tuple(keep))
+        # sometimes the open metavariable is supplied later / the fuller side is only a bit fuller
+        other = full if rng.random() < 0.7 else ('I', nt.definition, tuple(items[:max(len(keep), 1)]))
+        return part, other, kind
+    if kind == 'extra-key':
+        return full, ('I', nt.definition, tuple(items + [(nt.arity + rng.randrange(3), gen.term(0))])), kind
+    if kind == 'reordered':
+        it2 = list(items)
+        rng.shuffle(it2)
+        return full, ('I', nt.definition, tuple(it2)), kind
+    args2 = list(args)
+    i = rng.randrange(nt.arity)
+    args2[i] = gen.mutate(args[i])
+    return full, nt(*args2), 'one-arg'
+
+
+def binder_notations(notations):
+    """(notation, bound element variable) for notations whose definition binds a variable above a metavariable"""
+    out = []
+
+    def scan(t, nt):
+        k = t[0]
+        if k == 'x' and PC.has_kind(t[2], 'v'):
+            out.append((nt, t[1]))
+        if k in 'ia':
+            scan(t[1], nt)
+            scan(t[2], nt)
+        elif k in 'xm':
+            scan(t[2], nt)
+        elif k in 'ES':
+            scan(t[1], nt)
+            scan(t[3], nt)
+        elif k == 'I':
+            scan(t[1], nt)
+            for _, v in t[2]:
+                scan(v, nt)
+    for nt in notations:
+        if nt.arity >= 1:
+            scan(nt.definition, nt)
+    return out
+
+
+def subst_under_binder(rng, gen, binders):
+    """(premise, delta, x): a pending substitution phi_k[plug/x] whose metavariable is instantiated with a fully
+    applied notation that BINDS x and whose argument mentions x (Quantifier-axiom shape)"""
+    nt, x = rng.choice(binders)
+    k = rng.randrange(gen.nmv)
+    args = [('a', ('y', rng.choice(gen.syms)), ('e', x)) if rng.random() < 0.7 else gen.term(1) for _ in range(nt.arity)]
+    plug = ('e', (x + 1) % max(2, gen.nvars)) if rng.random() < 0.7 else gen.term(1, mvs=False)
+    prem = ('i', ('E', mv(k), x, plug), ('x', x, mv(k)))
+    return prem, ((k, nt(*args)),), x
+
+
+def spine_notations(rng, sym=7):
+    """generated notations for deconstruct_nary_application: argument-permuting / duplicating / metavariable-headed"""
+    f = ('y', sym)
+    return [
+        Notn('flip', 2, ('a', ('a', f, mv(1)), mv(0)), [('L', 'flip('), ('H', 0), ('L', ','), ('H', 1), ('L', ')')]),
+        Notn('diag', 1, ('a', ('a', f, mv(0)), mv(0)), [('L', 'diag('), ('H', 0), ('L', ')')]),
+        Notn('apply', 2, ('a', mv(0), mv(1)), [('L', 'apply('), ('H', 0), ('L', ','), ('H', 1), ('L', ')')]),
+        Notn('rot', 3, ('a', ('a', ('a', f, mv(2)), mv(0)), mv(1)), [('L', 'rot('), ('H', 0), ('H', 1), ('H', 2), ('L', ')')]),
+        Notn('skip', 3, ('a', ('a', f, mv(0)), mv(2)), [('L', 'skip('), ('H', 0), ('H', 2), ('L', ')')]),
+    ]
+
+
 def shipped_notations(reflect):
     out = []
     for n in reflect['notations']:
